@@ -19,8 +19,16 @@ def gen_handle(wd):
     src = slicer.read(EH)
     consts = "".join(l + "\n" for l in src.split("\n") if re.match(r"#define EB_(EncodeInstancesTotalCount|ComputeSegmentInitCount|SequenceControlSetPoolInitCount)\b", l))
     open(os.path.join(wd, "c16_handle.inc"), "w").write("/* constants of EbEncHandle.c, verbatim */\n" + consts + slicer.functions(EH, ["svt_enc_handle_stop_threads", "svt_enc_handle_dctor", "svt_enc_handle_ctor"]))
+def gen_wrapper(wd):
+    import os
+    from vlib import slicer
+    open(os.path.join(wd, "c16_wrapper.inc"), "w").write(slicer.functions(EH, ["svt_output_recon_buffer_header_creator", "svt_output_recon_buffer_header_destroyer"]))
 def queries(tier, fail=1, prefix="fail_"):
     qs = []
+    qs.append(Query(name=prefix + "object_wrapper_recon_header", harness="C16/ctors.c", gen=gen_wrapper, defines=["OBJ=6", "FAIL=%d" % fail], unwind=4,
+                    funcs=["Source/Lib/Common/Codec/EbSystemResourceManager.c:svt_object_wrapper_ctor", "Source/Lib/Common/Codec/EbSystemResourceManager.c:svt_object_wrapper_dctor", EH + ":svt_output_recon_buffer_header_creator", EH + ":svt_output_recon_buffer_header_destroyer"],
+                    bound="one pool object wrapper around a recon buffer header of an 8x8 picture, 8/10 bit" + ("; the k-th allocation request fails, all k" if fail else "; no failures"),
+                    what="a failing object creator is reported and the half-built wrapper is unwound without crash or leak" if fail else "wrapper constructor+destructor release every allocation", timeout=600))
     # one query per failure position: with a symbolic position the ~40 array-delete loops of the handle destructor read their counts through
     # a pointer that is NULL on some merged paths, become symbolic and are unrolled to the bound (no verdict in 15 min); concrete positions take seconds
     for kk in (range(0, 10) if fail else [99]):
